@@ -21,6 +21,7 @@
     `project_deterministic_order`.
 -/
 import Lungo.Proofs.ProjectLaws
+import Lungo.Proofs.ProjectPaths
 namespace Lungo.C14
 open Lungo
 
@@ -308,17 +309,9 @@ theorem stored_value_toplevel (d : Doc) (k : String) (hs : splitPath k = [k]) (h
     Get d k = (d.find? k).getD .missing :=
   Get_top d k hs hk
 
-/-- "Every value present in a projected result equals the stored value at that path", for flag-only
-    inclusion projections on top-level paths: each field `(k, v)` of the result has `v = Get d k`,
-    `v` is present, no name occurs twice, and every name is `_id` or an included name.
-
-    `inclusion_values_are_stored_partial`: the full statement quantifies over dotted paths that
-    descend through embedded documents (`getP res path = getP d path` for every leaf path of the
-    result).  Missing for that: the Access lemma `getP (Put res q v).1 p` for nested `q`
-    ("get after put": equal to `get v r` when `p = q ++ r`, unchanged when `p` and `q` diverge
-    inside a document), i.e. `put_top`/`upsert` generalised to nested paths.  Dotted paths are
-    covered by the `project` stream (model = code on 60k cases) but not by a theorem. -/
-theorem inclusion_values_are_stored_partial (sch : SchemaEval) (d proj res : Doc)
+/-- Top-level flag-only inclusion, field by field: each field `(k, v)` of the result has
+    `v = Get d k`, `v` is present, no name occurs twice, and every name is `_id` or an included name. -/
+theorem inclusion_toplevel_values (sch : SchemaEval) (d proj res : Doc)
     (hk : ∀ kv ∈ proj, isOpKey kv.1 = false ∧ (flagOf kv.2).isSome = true)
     (hex : ∀ kv ∈ proj, flagOf kv.2 = some false → kv.1 = "_id")
     (hinc : ((flagsOf proj).filter (·.2)).map (·.1) ≠ [])
@@ -354,6 +347,64 @@ theorem inclusion_values_are_stored_partial (sch : SchemaEval) (d proj res : Doc
   · exact ⟨fun kv hkv => hfull kv (List.mem_of_mem_tail hkv),
       hnd.sublist ((List.tail_sublist _).map _)⟩
   · exact ⟨hfull, hnd⟩
+
+/-- "Every value present in a projected result equals the stored value at that path" — inclusion
+    mode, dotted paths.  For a flag-only inclusion projection (`_id: 0` allowed) all of whose paths
+    descend through embedded documents only in `d` (no empty segment, no array met before the end:
+    `noArrayBefore`), a successful result `res` is a projection of `d`: reading ANY path (without
+    empty segments) in `res` gives nothing, or a value that is a projection (`SubV`) of the value
+    stored at the same path in `d` — and if it is not a document, exactly the stored value.
+    (`splitPath "_id" = ["_id"]` and `splitPath p ≠ []` are facts about `String.splitOn`, which does
+    not reduce in the kernel; see the tests.)
+
+    Not covered by a theorem (covered by the `project` stream only): results that also carry
+    `$slice`/`$elemMatch` overlays BELOW or ABOVE an included path (for a single operator entry see
+    `slice_project_toplevel`, `elemMatch_project_toplevel`), inclusion paths that fan out over
+    arrays of sub-documents (outside the property's domain), and the value-equality reading of
+    EXCLUSION on dotted paths (`exclusion_result` gives the result as iterated `Unset`;
+    `exclusion_toplevel_values` is the top-level statement).  For exclusion the path-wise law needs
+    field names to be unique inside every embedded document: unsetting `a` in `{a: 1, a: 2}` exposes
+    the shadowed `a: 2` (Go and model agree), so `getP res ["a"] ≠ getP d ["a"]` there. -/
+theorem inclusion_values_are_stored (sch : SchemaEval) (d proj res : Doc)
+    (hk : ∀ kv ∈ proj, isOpKey kv.1 = false ∧ (flagOf kv.2).isSome = true)
+    (hex : ∀ kv ∈ proj, flagOf kv.2 = some false → kv.1 = "_id")
+    (hinc : ((flagsOf proj).filter (·.2)).map (·.1) ≠ [])
+    (hdom : ∀ kv ∈ proj, "" ∉ splitPath kv.1 ∧ splitPath kv.1 ≠ [] ∧
+      noArrayBefore (.doc d) (splitPath kv.1))
+    (hidp : splitPath "_id" = ["_id"])
+    (h : Project sch d proj = .ok res) :
+    SubV (.doc res) (.doc d) ∧
+    ∀ path, "" ∉ path → (getP res path).isMissing = false →
+      SubV (getP res path) (getP d path) ∧ ((getP res path).isDoc = false → getP res path = getP d path) := by
+  have hsub := inclusion_sub sch d proj res hk hex hinc hdom hidp h
+  refine ⟨hsub, fun path hne hm => ?_⟩
+  have := SubV.get path hsub hne
+  simp only [getP] at hm ⊢
+  rcases this with h0 | h1
+  · rw [h0] at hm; simp [V.isMissing] at hm
+  · exact ⟨h1, fun hd => h1.eq_of_not_doc hd⟩
+
+/-- What "projection of" means, unfolded one level: equal, or both documents and every visible
+    field of the smaller one is a projection of the field of the same name of the larger one. -/
+theorem subdocument_unfold (x y : V) :
+    SubV x y ↔ x = y ∨ ∃ fs gs, x = .doc fs ∧ y = .doc gs ∧
+      (∀ k v, Doc.find? fs k = some v → (Doc.find? gs k).isSome = true) ∧
+      (∀ k v w, Doc.find? fs k = some v → Doc.find? gs k = some w → SubV v w) := by
+  constructor
+  · intro h
+    cases h with
+    | refl => exact Or.inl rfl
+    | doc fs gs hdom hsub => exact Or.inr ⟨fs, gs, rfl, rfl, hdom, hsub⟩
+  · rintro (rfl | ⟨fs, gs, rfl, rfl, hdom, hsub⟩)
+    · exact SubV.refl _
+    · exact SubV.doc fs gs hdom hsub
+
+/-- The Access lemma behind it ("get after put"): writing the value stored at `q` in `y` into a
+    projection of `y` at `q` yields a projection of `y`. -/
+theorem put_stored_value_keeps_projection (q : Path) (x y x' prev : V) (hx : x = .missing ∨ SubV x y)
+    (hne : "" ∉ q) (hna : noArrayBefore y q) (hv : ((get y q false false).1).isMissing = false)
+    (h : put x q (get y q false false).1 false = .ok (x', prev)) : SubV x' y :=
+  put_preserves_sub q x y x' prev hx hne hna hv h
 
 /-! ### 6. Determinism of overlays -/
 
@@ -429,6 +480,10 @@ def doc1 : Doc :=
         [("_id", .i32 7), ("b", .str "x"), ("a", .arr nums)]
 #guard newKeys ["_id"] ["b", "a", "b", "_id"] == ["b", "a"]
 #guard isOk (Project sch0 doc1 [("c.e", .i32 1)]) [("_id", .i32 7), ("c", .doc [("e", .i32 2)])]
+#guard isOk (Project sch0 doc1 [("c.e", .i32 1), ("c.d", .i32 1), ("_id", .i32 0)]) [("c", .doc [("e", .i32 2), ("d", .i32 1)])]
+#guard (splitPath "c.e" != []) && !(splitPath "c.e").contains ""
+-- duplicate field names: unsetting exposes the shadowed field (why the exclusion law needs unique names)
+#guard isOk (Project sch0 [("_id", .i32 1), ("a", .i32 1), ("a", .i32 2)] [("a", .i32 0)]) [("_id", .i32 1), ("a", .i32 2)]
 -- _id missing from the stored document: inclusion fails (Put of Missing)
 #guard isErr (Project sch0 [("a", .i32 1)] [("a", .i32 1)])
 end tests
